@@ -456,6 +456,64 @@ func main() {
 			}
 		})
 
+		// The offender arrives after a long open message: k non-final fragments (k around the
+		// widths a counter might have), then a frame that may not come inside a message - a new text
+		// frame with payload. Whatever k, the message so far is delivered, then the protocol error;
+		// the offender's payload and the message behind it never are.
+		r.Part("E1c-offender-after-a-long-open-message", func(t *explore.T) {
+			ks := []int{254, 255, 256, 257, 65535, 65536, 65537}
+			drv := []drivers.Driver{drivers.ReaderLoop(512), drivers.ReadMessageLoop(), drivers.ReadDataLoop("Generic"), drivers.ReaderReceiveLoop(), drivers.ReaderDiscard(0)}
+			t.Par(len(ks)*2, func(i int) {
+				k := ks[i/2]
+				side := streams.Server
+				if i%2 == 1 {
+					side = streams.Client
+				}
+				masked := side == streams.Server
+				var data []byte
+				data = append(data, refmodel.Frame{H: refmodel.Hdr{Op: 2, Masked: masked, Mask: [4]byte{1, 2, 3, 4}}, Payload: []byte("a")}.Wire()...)
+				for j := 0; j < k; j++ {
+					var pl []byte
+					if j%97 == 0 {
+						pl = []byte("b")
+					}
+					data = append(data, refmodel.Frame{H: refmodel.Hdr{Op: 0, Masked: masked, Mask: [4]byte{1, 2, 3, byte(j)}}, Payload: pl}.Wire()...)
+				}
+				hdrEnd := len(data)
+				data = append(data, refmodel.Frame{H: refmodel.Hdr{Fin: true, Op: 1, Masked: masked, Mask: [4]byte{4, 3, 2, 1}}, Payload: marker[:16]}.Wire()...)
+				data = append(data, canary(side)...)
+				for _, d := range drv {
+					d := d
+					if k > 5000 && strings.HasPrefix(d.Name, "Reader/") && d.Name != "Reader/discard-after-0" {
+						continue // these drivers bound their Read calls; the helpers and Discard take the long ones
+					}
+					t.Do(func() string {
+						return fmt.Sprintf("%s Bin-(a) then %d non-final continuations, then a new Text frame; driver=%s", side, k, d.Name)
+					}, func() *explore.Fail {
+						src := env.NewSrc(data)
+						var res drivers.Result
+						d.Run(src, side, drivers.Cfg{}, &res)
+						if _, ok := res.Err.(ws.ProtocolError); !ok {
+							return explore.Failf("offender-after-long-message-not-refused:"+d.Name, "err=%v", res.Err)
+						}
+						for _, e := range res.Events {
+							if hasTaint(e.Payload) {
+								return explore.Failf("offender-after-long-message-delivered:"+d.Name, "event %s", drivers.FmtEvents([]drivers.Event{e}))
+							}
+						}
+						if hasTaint(res.Partial) {
+							return explore.Failf("offender-after-long-message-delivered:"+d.Name, "partial %x", res.Partial)
+						}
+						if src.Off > hdrEnd+len(refmodel.HdrEncode(refmodel.Hdr{Fin: true, Op: 1, Masked: masked, Len: 16})) {
+							return explore.Failf("read-past-the-offending-header:"+d.Name, "consumed %d, offender header ends at %d", src.Off, hdrEnd+6)
+						}
+						return nil
+					})
+				}
+			})
+			t.Outcome("rejected")
+		})
+
 		// A caller that reads on after a refusal (it logs the error and asks Read once more, as a
 		// loop written around Read does): whatever was handled before - nothing, a message read to
 		// its end, a control frame whose (possibly empty) payload a handler took without
